@@ -14,9 +14,9 @@ import (
 func GetClientIP(r *http.Request) string {
 	if xff := r.Header.Get("X-Forwarded-For"); xff != "" {
 		if idx := strings.Index(xff, ","); idx > 0 {
-			return strings.TrimSpace(xff[:idx])
+			return StripPort(strings.TrimSpace(xff[:idx]))
 		}
-		return strings.TrimSpace(xff)
+		return StripPort(strings.TrimSpace(xff))
 	}
 
 	if xri := r.Header.Get("X-Real-IP"); xri != "" {
@@ -27,4 +27,22 @@ func GetClientIP(r *http.Request) string {
 		return host
 	}
 	return r.RemoteAddr
+}
+
+// StripPort strips the source port from an address that a front proxy wrote as
+// "host:port" or "[v6]:port" (the port changes from connection to connection, the client
+// does not). Anything that is not an IP address with a port is returned as it is.
+func StripPort(addr string) string {
+	host, _, err := net.SplitHostPort(addr)
+	if err != nil {
+		return addr
+	}
+	ip := host
+	if i := strings.Index(ip, "%"); i >= 0 {
+		ip = ip[:i] // zone of a link-local IPv6 address
+	}
+	if net.ParseIP(ip) == nil {
+		return addr
+	}
+	return host
 }
